@@ -1795,6 +1795,45 @@ theorem docAttr_undo_exact (S : Schema) (t : TypeId) (a : Attrs) (m : Marks) (ki
       have := computeAttrs_undo _ a a1 name value v ha hlk hc1
       simp only [Schema.apply, this, Except.map, hm]
 
+/-- the fit guard holds whenever the inverse gets built at all … -/
+theorem invert_ok_of_fits (S : Schema) (d : Node) (f t gf gt : Nat) (sl : Slice) (ins : Nat) (b : Bool)
+    (h : gapFitsBack S d f t gf gt = true) : ∃ inv, S.invert (.replaceAround f t gf gt sl ins b) d = .ok inv := by
+  unfold gapFitsBack at h
+  simp only [Schema.invert]
+  cases h1 : d.slice f t with
+  | error e => simp [h1] at h
+  | ok old =>
+    cases h2 : d.slice gf gt with
+    | error e => simp [h1, h2] at h
+    | ok gap =>
+      cases h3 : old.removeBetween (gf - f) (gt - f) with
+      | error e => simp [h1, h2, h3] at h
+      | ok rem => simp only [h3]; exact ⟨_, rfl⟩
+
+/-- … and is implied by `gapClean` for a step that applied (`replaceAround_undo_structural` as a statement
+    about the guard) -/
+theorem gapFitsBack_of_clean_apply (S : Schema) (doc doc' : Node) (f t gf gt : Nat) (sl : Slice) (ins : Nat) (b : Bool)
+    (hd : S.checkNode doc = true) (hn : fnorm doc.kids = true)
+    (hwf : sl.wf = true) (hins : (ins : Int) ≤ sl.size) (hg : f ≤ gf ∧ gf ≤ gt ∧ gt ≤ t)
+    (h1 : S.apply (.replaceAround f t gf gt sl ins b) doc = .ok doc')
+    (hclean : ∀ old, doc.slice f t = .ok old →
+      gapClean old.content none (gf - f + old.openStart) (gt - f + old.openStart) = true) :
+    gapFitsBack S doc f t gf gt = true := by
+  obtain ⟨inv, hi⟩ := invert_ok_replaceAround S doc doc' f t gf gt sl ins b hn hg h1 hclean
+  obtain ⟨gap, inserted, hgap, hgo1, hgo2, _, _⟩ :=
+    apply_replaceAround_parts S doc doc' f t gf gt sl ins b h1
+  obtain ⟨_, htK, _⟩ := apply_replaceAround_toks S doc doc' f t gf gt sl ins b hwf hins hg h1
+  simp only [Schema.invert] at hi
+  cases hsl : doc.slice f t with
+  | error e => simp [hsl] at hi
+  | ok old =>
+    simp only [hsl] at hi
+    cases hrm : old.removeBetween (gf - f) (gt - f) with
+    | error e => simp [hrm] at hi
+    | ok rem =>
+      exact gapFitsBack_of_clean S doc f t gf gt old rem gap hd hn hg htK hsl hgap ⟨hgo1, hgo2⟩ hrm
+        (hclean old hsl)
+
 /-- valid and in normal form -/
 def FamilyInv (S : Schema) (d : Node) : Prop := S.checkNode d = true ∧ fnorm d.kids = true
 
@@ -1806,8 +1845,11 @@ def FamilyInv (S : Schema) (d : Node) : Prop := S.checkNode d = true ∧ fnorm d
       payload; **`hst`** — when the structure flag is set, the two `content_between` checks of the inverse
       on `d'` find no content (the inverse inherits the flag; finding C04-structure-inverse; for a slice
       with only wrapper tokens beside the insertion point it holds: `replaceAround_hst_of_wrappers`,
-      Proofs/UndoStructure.lean); **`gapClean`** — the gap lies between complete children (what `lift`,
-      `wrap`, `set_node_markup` emit; otherwise finding C04-around-text-gap);
+      Proofs/UndoStructure.lean); **`gapFitsBack`** — the exact fit guard of `replaceAround_undo`: the gap,
+      removed from the old slice, can be put back by `insert_at` (finding C04-around-text-gap otherwise);
+      implied by `gapClean` — the gap lies between complete children, what `lift`, `wrap`,
+      `set_node_markup` emit (`gapFitsBack_of_clean_apply`); the Fitter also emits replace-around steps
+      whose gap is not clean but fits back (measured by the tie);
     * add-mark / remove-mark: the exact guard of the naive inverse (`addMarkUndoable` /
       `removeMarkUndoable`; the planners' steps satisfy it: `planGuard_family`);
     * attr / doc-attr: every node carries its attributes as `compute_attrs` builds them (`attrsOk`), and the
@@ -1822,8 +1864,7 @@ def FamilyGuard (S : Schema) (s : Step) (d d' : Node) : Prop :=
     C01.PayloadValid S d s ∧
     (b = true → contentBetween d' f (f + ins) = some false ∧
       contentBetween d' (f + ins + (gt - gf)) (f + sl.size.toNat + (gt - gf)) = some false) ∧
-    (∀ old, d.slice f t = .ok old →
-      gapClean old.content none (gf - f + old.openStart) (gt - f + old.openStart) = true) ∧
+    gapFitsBack S d f t gf gt = true ∧
     s.undoAligned d'
   | .addMark f t m => addMarkUndoable S d f t m = true ∧ s.undoAligned d'
   | .removeMark f t m => removeMarkUndoable S d f t m = true ∧ s.undoAligned d'
@@ -1866,15 +1907,15 @@ theorem family_step (S : Schema) (htr : compatTransB S = true) (hts : TextLoop S
     exact ⟨⟨inv, hi, replace_undo_transitive S d d' f t sl b inv htr hv hn hsn h hi ha⟩,
       C01.apply_valid S (.replace f t sl b) d d' hv hp h, apply_norm S (.replace f t sl b) d d' hsn hn h⟩
   | replaceAround f t gf gt sl ins b =>
-    obtain ⟨hsn, hwf, hins, hgo, hp, hst, hclean, ha1, ha2, ha3, ha4⟩ := hg
-    obtain ⟨inv, hi⟩ := invert_ok_replaceAround S d d' f t gf gt sl ins b hn hgo h hclean
+    obtain ⟨hsn, hwf, hins, hgo, hp, hst, hfit, ha1, ha2, ha3, ha4⟩ := hg
+    obtain ⟨inv, hi⟩ := invert_ok_of_fits S d f t gf gt sl ins b hfit
     have hj : sidesCompatibleAround S d f t gf gt sl ins = true := by
       obtain ⟨gap, inserted, hgap, _, _, hinst, hfr1⟩ := apply_replaceAround_parts S d d' f t gf gt sl ins b h
       obtain ⟨ty, a, m, K, K', rfl, rfl, hr1⟩ := fromReplace_elem S d d' f t inserted hfr1
       have := sidesCompatible_of_trans S (compatTrans_of_B S htr) ty a m K K' f t inserted hn hr1
       simpa [sidesCompatibleAround, hgap, hinst] using this
-    exact ⟨⟨inv, hi, replaceAround_undo_structural S d d' f t gf gt sl ins b inv hv hn hsn hwf hins hgo h hi
-        hst hclean hj ⟨ha1, ha3, ha4, ha2⟩⟩,
+    exact ⟨⟨inv, hi, replaceAround_undo S d d' f t gf gt sl ins b inv hv hn hsn hwf hins hgo h hi
+        hst hfit hj ⟨ha1, ha3, ha4, ha2⟩⟩,
       C01.apply_valid S (.replaceAround f t gf gt sl ins b) d d' hv hp h,
       apply_norm S (.replaceAround f t gf gt sl ins b) d d' hsn hn h⟩
   | addMark f t m =>
@@ -2109,7 +2150,7 @@ theorem liftGuard_family (S : Schema) (d d' : Node) (a b depth target : Nat) (st
   have hclean := lift_gapClean S d d' a b depth target _ rf rt hn hab hf ht hfb htb hb h f t gf gt sl ins true rfl
   exact ⟨hsn, hwf, hins, hgo, hp,
     fun _ => replaceAround_hst_of_wrappers S d d' f t gf gt sl ins true hn hsn hwf hins hgo h hshape,
-    hclean, hal⟩
+    gapFitsBack_of_clean_apply S d d' f t gf gt sl ins true hv hn hwf hins hgo h hclean, hal⟩
 
 /-- the step `wrap` emits satisfies its `FamilyGuard` on a valid normal-form document: node range as
     `block_range` builds it, no wrapper of a leaf type; pair-alignment left.  (Payload: the wrappers with
@@ -2123,7 +2164,8 @@ theorem wrapGuard_family (S : Schema) (d d' : Node) (a b depth : Nat) (ws : List
   obtain ⟨rf, rt, hf, ht, hab, hend, hfb, htb⟩ := hr
   obtain ⟨f, t, gf, gt, sl, ins, rfl, hsn, hwf, hins, hgo, hp, hst, hclean⟩ :=
     wrap_guard_parts S d d' a b depth ws st rf rt hv hn hf ht hab hend hfb htb hl hb h
-  exact ⟨hsn, hwf, hins, hgo, hp, fun _ => hst, hclean, hal⟩
+  exact ⟨hsn, hwf, hins, hgo, hp, fun _ => hst,
+    gapFitsBack_of_clean_apply S d d' f t gf gt sl ins true hv hn hwf hins hgo h hclean, hal⟩
 
 /-- the replace-around step `set_node_markup` and `set_block_type` emit for a non-leaf node (`retypeStep`:
     keep the content as the gap, put the new empty node around it) satisfies its `FamilyGuard` on a valid
@@ -2137,7 +2179,8 @@ theorem retypeGuard_family (S : Schema) (d d' node nn : Node) (pos : Nat)
     (hal : (retypeStep pos (pos + node.size) nn).undoAligned d') :
     FamilyGuard S (retypeStep pos (pos + node.size) nn) d d' := by
   obtain ⟨h1, h2, h3, h4, h5, h6, h7⟩ := retype_guard_parts S d d' node nn pos hv hn hna hnl hnn h
-  exact ⟨h1, h2, h3, h4, h5, fun _ => h6, h7, hal⟩
+  exact ⟨h1, h2, h3, h4, h5, fun _ => h6,
+    gapFitsBack_of_clean_apply S d d' _ _ _ _ _ 1 true hv hn h2 h3 h4 h h7, hal⟩
 
 /-- what `NodeType.create(attrs, None, marks)` gives for a non-leaf type -/
 theorem createNode_elem (S : Schema) (ty : TypeId) (attrs : Attrs) (ms : Marks) (nn : Node)
@@ -2200,9 +2243,7 @@ theorem structGuardB_family (S : Schema) (s : Step) (d d' : Node) (h : structGua
       rcases hst with hb' | hst
       · rw [hb] at hb'; cases hb'
       · exact hst
-    · intro old ho
-      rw [ho] at hclean
-      exact hclean
+    · exact hclean
   | addMark => simp [structGuardB, structGuardParts] at h
   | removeMark => simp [structGuardB, structGuardParts] at h
   | addNodeMark => simp [structGuardB, structGuardParts] at h
